@@ -420,7 +420,7 @@ def set_config(case):
     M.config.display_duplicate_attribute_warning = bool(case["cfg"].get("display_duplicate_attribute_warning", False))
 
 
-UINT8_MAX_NV = 255     # (256 once fix C04-9 is in: export_obj / export_medit compute 'index + 1' in the dtype of the row, 255 + 1 wraps to 0)
+UINT8_MAX_NV = 256     # (F-C04-9, fixed in /repo by 3db9e02: export_obj / export_medit computed 'index + 1' in the dtype of the row, 255 + 1 wrapped to 0)
 
 
 def rows_form_of(case):
